@@ -102,6 +102,13 @@ contract('info.SectionType.gettype', params={'name': 'str'}, returns='Ref[TypeLi
          ensures=[Clause('name.lower() in self._types and result == self._types[name.lower()]', carries='C01', label='known-type')],
          raises=[Raise('ZConfig.SchemaError', when='name.lower() not in self._types', carries='C01', label='unknown-type')])
 
+contract('info.SectionType.getinfo', params={'key': 'str'}, returns='Ref[info.BaseInfo]', pure=True,
+         ensures=[Clause("key != '' and key in self._keymap and result == self._keymap[key]", carries='C13',
+                         label='the-declared-item-of-that-key')],
+         raises=[Raise('ZConfig.ConfigurationError', when="key == '' or key not in self._keymap", carries='C13',
+                       label='no-such-key-is-a-configuration-error-not-a-KeyError')],
+         notes='schema description accessor (session 4): a lookup in the key map, no write to the schema')
+
 contract('info.SectionType.getsectioninfo', params={'type_': 'str', 'name': 'Opt[str]'},
          returns='Ref[info.SectionInfo]',
          ensures=[Clause('slot_search(self, 0, type_, name) >= 0 and slot_search(self, 0, type_, name) < len(self._children) '
